@@ -401,8 +401,8 @@ class AdtEngine(Engine):
 
     def tiers(self, prop):
         return {
-            "quick": dict(cases=64000, per_batch=2000, budget_s=150, batch_timeout=120, min_budget_s=60),
-            "thorough": dict(cases=1600000, per_batch=5000, budget_s=900, batch_timeout=300, min_budget_s=120),
+            "quick": dict(cases=128000, per_batch=2000, budget_s=150, batch_timeout=120, min_budget_s=60),
+            "thorough": dict(cases=4000000, per_batch=5000, budget_s=1200, batch_timeout=300, min_budget_s=120),
         }
 
     def gen(self, prop, rng, tier):
